@@ -44,6 +44,7 @@ type gen struct {
 	ctl     bool            // profile: generate non-local exits, cleanups, errors
 	inline  bool            // profile "defs": also inline lambda calls ((lambda (p) ...) arg)
 	rctr    int             // resources (mutexes, files) made so far in this program
+	macro   [2]string       // names of the two macros of the program ("" = none): (mw a), (mb var form...)
 	noExit  int             // > 0 while inside a position from which an exit is not generated (cleanup forms, binding init forms)
 	clash   bool            // profile "core": closures called where a variable of the captured name is bound (finding C01-F4)
 	feats   map[string]bool // features of the current program that open findings are about (stimulus field "features")
@@ -184,6 +185,20 @@ func (g *gen) num(d int, vars []string) N {
 		v := vars[g.rng.Intn(len(vars))]
 		lam := N{"k": "lam", "ps": []any{p}, "body": []any{g.m(N{"k": "add", "a": N{"k": "var", "n": p}, "b": N{"k": "var", "n": v}})}}
 		return g.m(N{"k": "fcall", "f": lam, "args": []any{g.noex(func() N { return g.num(d-1, vars) })}, "spread": false, "inline": true})
+	}
+	if g.macro[0] != "" && g.one(14) {
+		// a call of a macro of the program: the machine evaluates the expansion (field exp), the text is the macro call
+		if g.one(2) {
+			// (mw a) => (+ a (car (cdr (list 0 K 2)))): the template has a sub-form without commas whose value is a list
+			a := g.noex(func() N { return g.num(d-1, vars) })
+			return g.m(N{"k": "mcall", "name": g.macro[0], "args": []any{a},
+				"exp": N{"k": "add", "a": a, "b": mwTail()}})
+		}
+		// (mb v form...) => (let ((v (car (cdr (list 0 K 2))))) form...)
+		v := g.fresh()
+		body := g.body(d-1, append(append([]string{}, vars...), v))
+		return g.orZero(N{"k": "mcall", "name": g.macro[1], "args": append([]any{N{"k": "var", "n": v}}, body...),
+			"exp": N{"k": "let", "bs": []any{N{"n": v, "e": mwTail()}}, "body": body}})
 	}
 	if g.one(9) {
 		return g.more(d, vars)
@@ -604,6 +619,11 @@ func (g *gen) resource(d int, vars []string) N {
 	body = append(body, g.body(d-1, vars)...)
 	return N{"k": "let", "bs": []any{N{"n": keep, "e": lit(nilV()), "bare": g.rng.Intn(3)}}, "body": []any{
 		N{"k": "protect", "e": N{"k": "withfile", "var": fs, "body": body}, "cleanup": []any{held()}}}}
+}
+
+// mwTail is the comma-free part of the templates of the program's macros: (car (cdr (list 0 4 2)))
+func mwTail() N {
+	return N{"k": "car", "a": N{"k": "cdr", "a": N{"k": "list", "es": []any{lit(I(0)), lit(I(4)), lit(I(2))}}}}
 }
 
 func (g *gen) noex(f func() N) N {
@@ -1105,6 +1125,8 @@ func render(n N) string {
 		return fmt.Sprintf("(%s %s%s)", name, render(n["f"].(N)), rlist(n["args"].([]any)))
 	case "call":
 		return fmt.Sprintf("(%s%s)", n["f"], rlist(n["args"].([]any)))
+	case "mcall":
+		return fmt.Sprintf("(%s%s)", n["name"], rlist(n["args"].([]any)))
 	case "mapcar", "mapc", "mapcan", "maplist", "every", "some":
 		return fmt.Sprintf("(%s %s %s)", n["k"], render(n["f"].(N)), render(n["l"].(N)))
 	case "findif", "countif", "removeif":
@@ -1203,6 +1225,8 @@ type c01Stim struct {
 	Ast    json.RawMessage `json:"ast"`
 	DefSrc []string        `json:"defsrc"`
 	Src    string          `json:"src"`
+	// macros of the program, defined before anything else in every variant
+	MacroSrc []string `json:"macrosrc"`
 }
 
 func c01Project(o slip.Object) N {
@@ -1267,7 +1291,7 @@ func c01(args []string) {
 		}
 		cur, budget = st.ID, 4000
 		out.Emit(N{"t": st.ID, "ev": "start", "defs": st.Defs, "ast": st.Ast})
-		for _, d := range st.DefSrc {
+		for _, d := range append(append([]string{}, st.MacroSrc...), st.DefSrc...) {
 			if o := h.Eval(s, d); !o.OK() {
 				out.Emit(N{"t": st.ID, "ev": "end", "v": []any{N{"k": "err", "c": o.Class}}, "src": d, "msg": o.Msg})
 				return
@@ -1320,6 +1344,15 @@ func c01Gen(args []string) {
 		g.feats = map[string]bool{}
 		var defs []any
 		var defsrc []string
+		macrosrc := []string{}
+		g.macro = [2]string{}
+		if profile != "ctl" {
+			g.fctr++
+			g.macro = [2]string{fmt.Sprintf("mw%s%d-%d", profile[:1], seed, g.fctr), fmt.Sprintf("mb%s%d-%d", profile[:1], seed, g.fctr)}
+			macrosrc = append(macrosrc,
+				fmt.Sprintf("(defmacro %s (a) `(+ ,a %s))", g.macro[0], render(mwTail())),
+				fmt.Sprintf("(defmacro %s (v &rest body) `(let ((,v %s)) ,@body))", g.macro[1], render(mwTail())))
+		}
 		for i := 0; i < 2; i++ {
 			g.fctr++
 			name := fmt.Sprintf("f%s%d-%d", profile[:1], seed, g.fctr)
@@ -1452,6 +1485,6 @@ func c01Gen(args []string) {
 			feats = append(feats, f)
 		}
 		sort.Strings(feats)
-		_ = enc.Encode(N{"id": t, "defs": defs, "ast": main, "defsrc": defsrc, "src": render(main), "features": feats})
+		_ = enc.Encode(N{"id": t, "defs": defs, "ast": main, "defsrc": defsrc, "macrosrc": macrosrc, "src": render(main), "features": feats})
 	}
 }
